@@ -61,8 +61,7 @@ theorem feed_frame (key nonce payload : Bytes) (r : Reader) (h : Idle r) (hk : k
     subst he hw hneed hacc
     simp
   · simp only [h0, if_false]
-    rw [feed_body key { r with want := .body nonce, need := payload.length, acc := [], consumed := r.consumed + 12 + 4,
-        maxAlloc := max r.maxAlloc payload.length } nonce _ h.ended rfl hlen.symm (by omega) rfl]
+    rw [feed_body key { r with want := .body nonce, need := payload.length, acc := [], consumed := r.consumed + 12 + 4, maxAlloc := max r.maxAlloc payload.length } nonce _ h.ended rfl hlen.symm (by omega) rfl]
     simp only [deliver, hinv, hlen]
     cases r
     simp only [Reader.mk.injEq, kNonceSize_eq, and_true, true_and] at h ⊢
@@ -70,7 +69,6 @@ theorem feed_frame (key nonce payload : Bytes) (r : Reader) (h : Idle r) (hk : k
     simp only at he hw hneed hacc
     subst he hw hneed hacc
     simp
-    omega
 
 /-- the reader is again at the top of its loop after a frame -/
 theorem idle_after_frame (r : Reader) (h : Idle r) (d : List Bytes) (c m : Nat) :
